@@ -20,7 +20,11 @@ var vEnv = map[string]string{}
 func stub__os_Getenv(key string) string { return vEnv[key] }
 
 func vStr(name string) string {
-	return nondetStr(name, concretize(nondetInt(name+".len"), 0, 2))
+	maxLen := 2
+	if tierThorough() {
+		maxLen = 3
+	}
+	return nondetStr(name, concretize(nondetInt(name+".len"), 0, maxLen))
 }
 
 func vDur(name string) time.Duration { return time.Duration(nondetI64(name)) }
